@@ -569,3 +569,88 @@ Theorem C05_example_canon_registry_is_not_real :
   RegistryOf leg_defs (label_at leg_labels) leg_reg /\ forall L, ~ RegistryOf1 leg_defs L leg_reg.
 Proof. exact leg_example. Qed.
 Print Assumptions C05_example_canon_registry_is_not_real.
+
+(** ** "all instantiations of one definition yield one and the same item" on real registries:
+    [types_equal] answers "equal" on two coincidence-free instantiations of one definition, so the
+    generation loop does not fail with DuplicateTypePath and [ensure_unique] keeps them together.
+    These are [C03_equal_complete_partial], [C04_instantiations_stay_partial],
+    [C04_program_no_duplicate_path_partial], [C04_program_untouched_partial] (Properties/C03.v,
+    C04.v, Proofs/TeqComplete.v) with [RegistryOf1] / [instantiation_cf1] for [RegistryOf] /
+    [instantiation_cf] and without [map canon args = args] (Proofs/TeqComplete1.v: the
+    abstract-term simulation with the one-step identity; below a plain field type the instances
+    are compared as written, [inj_raw]).  The two entries may be registered for boxed forms of the
+    instantiations ([peel1 l = SApp d args]); [Foo<Vec<Box<u16>>>] and [Foo<Vec<u16>>], which have one
+    [canon] form and two entries, are covered ([C05_example_types_equal_duplicates]).
+    PARTIAL for the same reason as the originals: the fragment [teq_program_okb] (no
+    [#[codec(compact)]] field; field types without Box / VecDeque, parameters only directly or
+    under Vec / array / tuple / Compact / Option / Result / Range / Cow); outside it the statement
+    is false ([C04_instantiations_stay_cf_refuted]). *)
+From V Require Import Model.Derives Model.Equal Model.WellFormed Proofs.KeepFirst Proofs.DedupProofs Proofs.TeqComplete1.
+
+Theorem C05_instantiations_judged_equal1_partial :
+  forall defs L r,
+  RegistryOf1 defs L r ->
+  forall d sd, nth_error defs d = Some sd -> teq_program_okb sd = true ->
+  forall args1 args2,
+  instantiation_cf1 defs sd args1 = true -> instantiation_cf1 defs sd args2 = true ->
+  forall id1 id2 l1 l2, L id1 = Some l1 -> L id2 = Some l2 ->
+  peel1 l1 = SApp d args1 -> peel1 l2 = SApp d args2 ->
+  types_equal r id1 id2 = Ok true.
+Proof. exact teq_instantiations_labels1. Qed.
+Print Assumptions C05_instantiations_judged_equal1_partial.
+
+Theorem C05_program_no_duplicate_path1_partial :
+  forall defs L r s,
+  RegistryOf1 defs L r -> ids_consistent r = true ->
+  (forall sd, In sd defs -> teq_program_okb sd = true /\ forall lsb, sd_path sd <> order_path_of lsb) ->
+  (forall d1 d2 sd1 sd2,
+     nth_error defs d1 = Some sd1 -> nth_error defs d2 = Some sd2 -> sd_path sd1 = sd_path sd2 -> d1 = d2) ->
+  (forall id c d args sd,
+     L id = Some c -> peel1 c = SApp d args -> nth_error defs d = Some sd ->
+     instantiation_cf1 defs sd args = true) ->
+  Forall (fun c : cmp => types_equal r (fst (fst c)) (snd (fst c)) = Ok true) (comparisons r s).
+Proof. exact program_comparisons_equal1. Qed.
+Print Assumptions C05_program_no_duplicate_path1_partial.
+
+Theorem C05_program_generates1_partial :
+  forall defs L r s,
+  RegistryOf1 defs L r -> ids_consistent r = true ->
+  (forall sd, In sd defs -> teq_program_okb sd = true /\ forall lsb, sd_path sd <> order_path_of lsb) ->
+  (forall d1 d2 sd1 sd2,
+     nth_error defs d1 = Some sd1 -> nth_error defs d2 = Some sd2 -> sd_path sd1 = sd_path sd2 -> d1 = d2) ->
+  (forall id c d args sd,
+     L id = Some c -> peel1 c = SApp d args -> nth_error defs d = Some sd ->
+     instantiation_cf1 defs sd args = true) ->
+  forall flat, flatten (s_dreg s) r = Ok flat -> all_ok r s flat r ->
+               exists m, generate r s (types_equal r) = Ok m.
+Proof. exact program_generates1. Qed.
+Print Assumptions C05_program_generates1_partial.
+
+Theorem C05_program_untouched1_partial :
+  forall defs L r,
+  RegistryOf1 defs L r -> ids_consistent r = true ->
+  (forall sd, In sd defs -> teq_program_okb sd = true /\ forall lsb, sd_path sd <> order_path_of lsb) ->
+  (forall d1 d2 sd1 sd2,
+     nth_error defs d1 = Some sd1 -> nth_error defs d2 = Some sd2 -> sd_path sd1 = sd_path sd2 -> d1 = d2) ->
+  (forall id c d args sd,
+     L id = Some c -> peel1 c = SApp d args -> nth_error defs d = Some sd ->
+     instantiation_cf1 defs sd args = true) ->
+  ensure_unique r = Ok r.
+Proof. exact program_dedup_untouched1. Qed.
+Print Assumptions C05_program_untouched1_partial.
+
+(** non-vacuity: [a::Pt<T> { x: T, ys: Vec<T> }] at [Vec<Box<u16>>] and at [Vec<u16>]: one [canon]
+    form, two entries (as are [Vec<Box<u16>>] / [Vec<u16>], [Vec<Vec<Box<u16>>>] / [Vec<Vec<u16>>]);
+    [RegistryOf1] holds, the [canon] labels are not injective, both instantiations are
+    coincidence-free, [types_equal] answers "equal", generation succeeds *)
+Theorem C05_example_types_equal_duplicates :
+  RegistryOf1 tq1_defs (label_at tq1_labels) tq1_reg /\
+  labels_injectiveb (map (fun o => match o with Some c => Some (canon c) | None => None end) tq1_raw_labels) = false /\
+  nth_error tq1_defs 0 = Some tq1_sd /\ teq_program_okb tq1_sd = true /\
+  instantiation_cf1 tq1_defs tq1_sd tq1_args1 = true /\ instantiation_cf1 tq1_defs tq1_sd tq1_args2 = true /\
+  label_at tq1_labels 0 = Some (SApp 0 tq1_args1) /\ label_at tq1_labels 4 = Some (SApp 0 tq1_args2) /\
+  map canon tq1_args1 = map canon tq1_args2 /\
+  types_equal_res tq1_reg 0 4 = Ok true /\
+  is_ok (generate tq1_reg ex5_s (types_equal tq1_reg)) = true.
+Proof. exact tq1_example. Qed.
+Print Assumptions C05_example_types_equal_duplicates.
